@@ -64,8 +64,17 @@ def same_alias_cases(n, seed):
         A, B, T = f"tb_sa{i}", f"tb_sb{i}", Base(f"tb_st{i}", rnd.choice([None, "sa"]))
         c1, c2 = f"c_{rnd.randint(1, 5)}", f"c_{rnd.randint(6, 9)}"
         al = rnd.choice(["s", "x1", "dq", "src"])
-        k = i % 3
-        if k == 0:
+        k = i % 4
+        if k == 3:
+            # one CTE referenced under different aliases in two set-operation branches; the alias of branch 1 names the other CTE in branch 2
+            from vlib.sqlgen import CteRef, With
+            w1, w2 = f"wq_a{i}", f"wq_b{i}"
+            q1 = Select([Item(col(c1), "a"), Item(col(c2), "b")], [Group(Base(A))])
+            q2 = Select([Item(col("a", w1), "c")], [Group(CteRef(w1))])
+            b1 = Select([Item(col("c", al), "o")], [Group(CteRef(w2, al))])
+            b2 = Select([Item(col("b", al), "o")], [Group(CteRef(w2, "k9"), [("left", CteRef(w1, al), "on")])])
+            q = With([(w1, q1), (w2, q2)], SetOp(rnd.choice(["union all", "union"]), [b1, b2]))
+        elif k == 0:
             def side(tab, outer):
                 inner = Select([Item(col(c1)), Item(col(c2))], [Group(Base(tab))])
                 mid = Select([Item(col(c1, al)), Item(col(c2, al))], [Group(Derived(inner, al))])
